@@ -391,12 +391,24 @@ def trusted_base(pr, extra=()):
 def harness_cases(cmd, args, timeout=1800, race=False):
     """Build harness/cmd/<cmd> against the working tree, run it, parse its JSON-lines output."""
     b = build_harness(cmd, race=race)
-    rc, out, err = run_bin(b, args, timeout=timeout)
+    os.makedirs(os.path.join(BUILD, "out"), exist_ok=True)
+    outf = os.path.join(BUILD, "out", "%s-%d-%d.jsonl" % (cmd, os.getpid(), int(time.time() * 1000) % 10**9))
+    env = dict(os.environ, VERIF_OUT=outf)
+    rc, so, err = run_bin(b, args, timeout=timeout, env=env)
+    out = open(outf).read() if os.path.exists(outf) else ""
+    try:
+        os.remove(outf)
+    except OSError:
+        pass
+    err = (err or "") + so[-2000:]
     cases = []
     for line in out.split("\n"):
         line = line.strip()
         if line.startswith("{"):
-            cases.append(json.loads(line))
+            try:
+                cases.append(json.loads(line))
+            except ValueError:
+                pass   # a truncated last line (harness killed by the timeout)
     return rc, cases, err
 
 
@@ -405,3 +417,20 @@ def histogram(xs):
     for x in xs:
         h[x] = h.get(x, 0) + 1
     return dict(sorted(h.items(), key=lambda kv: -kv[1]))
+
+
+# ----------------------------------------------------------------------------------------------
+# TR: translator (harness/cmd/translator) — regenerates coq/theories/Gen/*.v from REPO's current source
+# ----------------------------------------------------------------------------------------------
+
+def run_translator():
+    """Build and run the go/ast translator against the working tree of REPO. Output files are rewritten only
+    when their content changes (so `make` stays a no-op) and are removed when their unit fails, so that no proof
+    can be built against definitions that no longer reflect the source. Returns (ok, log)."""
+    try:
+        b = build_harness("translator")
+    except BuildError as e:
+        return False, str(e)
+    with Lock("coq"):
+        rc, out, err = run_bin(b, ["-repo", REPO, "-out", os.path.join(THEORIES, "Gen")], timeout=120)
+    return rc == 0, (out or "") + (err or "")
